@@ -67,8 +67,12 @@ func (e *Engine) packVal(st *State, v Val) *Term {
 	walk(sv)
 	name := "pack_" + typeTag(sv.T)
 	e.C.DeclareFun(name, sorts, "Obj")
-	if len(as) == 0 {
-		return mk("Obj", name)
+	pk := mk("Obj", name)
+	if len(as) > 0 {
+		pk = mk("Obj", "("+name+" "+strings.Join(as, " ")+")")
 	}
-	return mk("Obj", "("+name+" "+strings.Join(as, " ")+")")
+	if !containsBound(pk.T) {
+		e.packViews(st, sv, pk)
+	}
+	return pk
 }
